@@ -204,7 +204,9 @@ def liveness_stream(chk, prop, ncases, only=None):
 
 
 def real_kills(chk, nkills):
-    hbin = os.path.join(common.BIN, "agentrun")
+    hbin, out = common.build_harness("agentrun")
+    if not hbin:
+        chk.oblige("harness-build", False, out[-2000:]); return {}
     binp, out = common.build_real_binary()
     if not binp:
         chk.oblige("real-binary-build", False, out[-2000:]); return {}
